@@ -1,11 +1,16 @@
 ------------------------------- MODULE MC_Apq -------------------------------
 (* Bounded instances of Apq for TLC (constants are defined here because a   *)
 (* .cfg cannot write functions or sets of strings).                          *)
-(*   MC_Apq.cfg          exhaustive check of the invariants and PropStep,    *)
-(*                       history variable `sent` included in the state       *)
-(*   MC_Apq_thorough.cfg the same with a third valid text and capacity 3     *)
-(*   MC_ApqEdges.cfg     export of the labelled state graph (VIEW without    *)
-(*   MC_ApqEdgesT.cfg    history/label variables) for the replay (quick/thorough) *)
+(*   MC_Apq.cfg / MC_Apq_thorough.cfg                                        *)
+(*       exhaustive check (invariants, PropStep) over ALL request forms the  *)
+(*       harness can send, histories of any length, history variable off;    *)
+(*       with -workers 1 the ACTION_CONSTRAINT also prints the complete      *)
+(*       labelled state graph for the replay.                                *)
+(*   MC_ApqHist.cfg / MC_ApqHist_thorough.cfg                                *)
+(*       exhaustive check with the history variable `sent` on (the literal   *)
+(*       "previously sent together with that hash"), one representative per  *)
+(*       symmetric request family, histories of any length that send at most *)
+(*       MaxSent distinct <<hash, text>> pairs.                              *)
 EXTENDS Apq, TLC, Json
 
 H(ts) == [t \in ts |-> "h:" \o t]
@@ -44,4 +49,7 @@ EmitEdge == PrintT(ToJson([s |-> Proj, a |-> act', o |-> out', t |-> Proj']))
 EmitInit == PrintT(ToJson([init |-> Proj]))
 
 EdgeView == <<kind, cap, cache, order>>
+
+SentQ == Cardinality(sent) <= 3
+SentT == Cardinality(sent) <= 6
 =============================================================================
